@@ -18,6 +18,7 @@ package main
 //      state is compared with the model as in (a).
 
 import (
+	"bytes"
 	"crypto/sha256"
 	"encoding/json"
 	"fmt"
@@ -459,6 +460,10 @@ func c05Chain(r *RunCtx, c int) error {
 			res = e.Run(&storagetypes.MsgInitProvider{Creator: users[2].String(), Ip: "https://leaver.example.com", TotalSpace: 1 << 40})
 			r.Hist("chain_msgs", "storage.MsgInitProvider(directed):"+res.Out)
 			files = append(files, posted{root, users[0].String(), e.Height, item, pj})
+			// a file whose root is two bytes long (validation admits any length), without provers: removed by the first
+			// reward block after its first window
+			res = e.Run(&storagetypes.MsgPostFile{Creator: users[1].String(), Merkle: []byte{byte(c), 7}, FileSize: 10, MaxProofs: 3, Expires: e.Height + 14400*3, Note: "{}"})
+			r.Hist("chain_msgs", "storage.MsgPostFile(directed, two-byte root):"+res.Out)
 			// a second small file with an extreme (but valid) replication count; one account proves it once and then goes
 			// silent, so a later reward block has to remove it
 			data2 := []byte(fmt.Sprintf("wide-file-%d", c))
@@ -521,7 +526,12 @@ func c05Chain(r *RunCtx, c int) error {
 				case 1:
 					exp = PickOne(p, ext)
 				}
-				pm := &storagetypes.MsgPostFile{Creator: us, Merkle: root, FileSize: size, ProofType: 0, MaxProofs: PickOne(p, []int64{1, 3, 1 << 40, 0, -1, 1 << 62}), Expires: exp, Note: "{}", ProofInterval: PickOne(p, []int64{0, 1, 3, 4, 6, 75, -1, 1 << 62})}
+				if p.Chance(1, 3) {
+					// stateless validation puts no bound on the length of the root: a client may send any bytes. Nobody can
+					// prove such a file, so a reward block removes it once it is past its first window
+					root = PickOne(p, [][]byte{{}, {0x7f}, {1, 2}, {1, 2, 3}, root[:5], root[:31], append(append([]byte{}, root...), 9), bytes.Repeat([]byte{0xab}, 200)})
+				}
+				pm := &storagetypes.MsgPostFile{Creator: us, Merkle: root, FileSize: size, ProofType: PickOne(p, []int64{0, 0, 0, 1, -1, 1 << 40}), MaxProofs: PickOne(p, []int64{1, 3, 1 << 40, 0, -1, 1 << 62}), Expires: exp, Note: "{}", ProofInterval: PickOne(p, []int64{0, 1, 3, 4, 6, 75, -1, 1 << 62})}
 				msg = pm
 				files = append(files, posted{root, us, e.Height, item, pj})
 			case 2: // plans with extreme sizes and durations
